@@ -45,6 +45,9 @@ INJECT = {
     "lib.rs": "src/lib.rs",
 }
 
+# harness modules that only compile when a particular model crate is patched in
+REQUIRES = {"crypt_filters.rs": "md-5", "algorithms.rs": "md-5", "cmap.rs": "rangemap"}
+
 # model crates patched in (name -> dir under /verif/models); which ones apply is chosen per build flavour
 MODELS_ALL = ["indexmap", "rangemap", "flate2", "weezl", "md-5", "sha2", "rand"]
 
@@ -87,6 +90,8 @@ def make_scratch(dest, models, harness_cfg="kani", copy_harness=False):
         hp = os.path.join(hdir, hfile)
         sp = os.path.join(dest, src)
         if not os.path.exists(hp):
+            continue
+        if hfile in REQUIRES and REQUIRES[hfile] not in (models or []):
             continue
         if not os.path.exists(sp):
             raise SystemExit(f"verif: anchored source file {src} is missing from {REPO}")
